@@ -1139,9 +1139,9 @@ theorem stepLineEnd_G (c : List Nat) (hn : c.length + 16 < 4294967296)
         exact finishC c hn s2 (by rw [e1]; exact hchain) hctx
       | loop pre f pc =>
         simp only [pure, Except.pure, bind, Except.bind]
-        apply finishC c hn _ hchain
         cases hs with
         | loop _ _ _ _ _ _ lvP loP chain' hsr ho hc hgc =>
+          apply finishC c hn _ hc
           obtain ⟨k', hs'⟩ := hsr.demote hkt
           exact ⟨false, k', lvP, loP, chain', hs', (fun h => by cases h), (fun h => by cases h)⟩
       | ifT pre done cur curOff ioff =>
